@@ -211,6 +211,9 @@ func H_C03_dispatch3() { vDispatch(3) }
 
 // serveRequests hands every non-Unbind request to serve exactly once with its own (w, r) pair.
 func H_C03_pairing() {
+	if vBool("lateSchedule") {
+		vLateSched() // handlers start only when the read loop blocks or ends
+	}
 	m := vMux()
 	type seen struct{ wid, rid int; mid int64 }
 	var got []seen
